@@ -71,6 +71,12 @@ def gen_plan(seed, tier):
          # a second switch is connected at the same time, with port numbers
          # in common, and gets port-status messages of its own
          "neighbour": r.chance(0.5)}
+  # port-status messages that arrive while the handshake is still waiting
+  # for its barrier reply (buffered, applied once the connection is up)
+  cfg["early_ps"] = [
+    {"reason": r.wpick([(3, 0), (4, 2), (3, 1)]), "port": r.randint(1, 2),
+     "name_v": r.pick([0, 1]), "hw_v": r.pick([0, 0, 1]), "config": 0}
+    for _ in range(r.wpick([(5, 0), (2, 2), (2, 3)]))]
   steps = []
   n = r.randint(4, 30 if tier == "thorough" else 18)
   tag = [1000]
@@ -199,8 +205,31 @@ def _drive(sim, plan, known, hit):
   peer = world.new_peer()
   sim.settle()
   ports0 = [_port(no) for no in cfg["ports0"]]
-  if not handshake_script(peer, 0x99, ports0):
-    raise S.SimAbort("harness", "handshake did not complete")
+  early = cfg.get("early_ps") or []
+  if not early:
+    if not handshake_script(peer, 0x99, ports0):
+      raise S.SimAbort("harness", "handshake did not complete")
+  else:
+    peer.send(W.enc_hello(0))
+    sim.drain()
+    fr = [d for d in peer.take() if d["type"] == W.FEATURES_REQUEST]
+    if not fr:
+      raise S.SimAbort("harness", "no features request")
+    peer.send(W.enc_features_reply(fr[0]["xid"], 0x99, ports0))
+    sim.drain()
+    br = [d for d in peer.take() if d["type"] == W.BARRIER_REQUEST]
+    if not br:
+      raise S.SimAbort("harness", "no barrier request")
+    for k, e in enumerate(early):
+      peer.send(W.enc_port_status(0x7000 + k, e["reason"],
+                                  _port(e["port"], e["name_v"], e["hw_v"],
+                                        e["config"])))
+      sim.probes["ps_during_handshake"] += 1
+      if sim.ch.chance("early_ps_settle", 0.5):
+        sim.drain()
+    peer.send(W.enc_barrier_reply(br[0]["xid"]))
+    sim.drain()
+    peer.take()
   con = peer.con
   if cfg.get("halt_raw"):
     from pox.lib.revent import EventHalt
@@ -213,6 +242,14 @@ def _drive(sim, plan, known, hit):
   model = {p["port_no"]: dict(p) for p in ports0}
   orig = {p["port_no"]: dict(p) for p in ports0}
   ever_deleted = set()
+  for e in early:
+    if e["reason"] == W.PR_DELETE:
+      if e["port"] in model:
+        ever_deleted.add(e["port"])
+      model.pop(e["port"], None)
+    else:
+      model[e["port"]] = dict(_port(e["port"], e["name_v"], e["hw_v"],
+                                    e["config"]))
   con2 = peer2 = None
   model2 = orig2 = None
   if cfg.get("neighbour"):
